@@ -149,6 +149,24 @@ func init() {
 		// programs with guarded recursion and calls: random stream, compared with the model
 		cfg := GenCfg{MaxDepth: 3, Subs: true, Globals: true, Captures: false, Anchors: true}
 		cases = append(cases, searchCases(r, st, sizes(tier, 500, 8000), cfg, 3, 10, "g")...)
+		// the outer scan on texts that are not ASCII: valid multi-byte characters, matches and failed attempts that end
+		// or start INSIDE a character, continuation bytes first, Latin-1 bytes, truncated sequences, 0xFF
+		bprogs := []string{"'b'", "'a' any", "any", "not 'x'", "in 'a' to 'z'", "not in 'a' to 'z'", "at least 1 any fewest 'q'",
+			"'\\xc3'", "any any", "letter", "not letter", "whitespace", "maybe 'a' 'b'", "at least 0 'a' 'b'", "line start any", "any file end"}
+		// (no literal of several bytes here: the engine counts columns per character inside one consuming read and per
+		// byte elsewhere, the model per byte; columns of non-ASCII texts are outside every property's claim, and this
+		// stream is about the scan advancing)
+		btexts := []string{"a\xa3b", "\x80b", "xa\u00e9x", "\u00e9", "\u00e9\u00e9b", "a\xc3", "\xc3", "\xa9\xa9\xa9", "\xff\xfeb", "\u20acb a\u20ac",
+			"\U0001F600b", "\xf0\x9f b", "ab\xe2\x82", "\x80", "a\u00a0b\n\u00e9\nb"}
+		bth := []string{}
+		for _, t := range btexts {
+			bth = append(bth, hx(t))
+		}
+		for i, p := range bprogs {
+			st.Features["scan-over-non-ascii-text"]++
+			cases = append(cases, Case{ID: fmt.Sprintf("nb%d", i), Op: "runmany",
+				Fields: []string{hx("find all " + p), strings.Join(bth, ",")}, Meta: map[string]string{}})
+		}
 		return cases
 	}
 }
